@@ -34,6 +34,7 @@ type JobSpec struct {
 	Files       []string                  `json:"files"` // harness files, relative to /verif
 	Fn          string                    `json:"fn"`
 	Conc        bool                      `json:"conc"`
+	IgnoreGo    bool                      `json:"ignore_go"` // sequential harness: a go statement starts nothing (stated in the job: goroutine bodies are outside the claim)
 	Redirects   map[string]string         `json:"redirects"`
 	Params      map[string]map[string]int `json:"params"` // tier -> name -> value
 	Tiers       []string                  `json:"tiers"`  // tiers that run this job (default: all)
